@@ -8,7 +8,7 @@
    each record; a mismatch does not stop validation, its index is collected. *)
 EXTENDS Naturals, Sequences, TLC, Json
 CONSTANTS Kinds, NameSet, MaxInputs, Reqs, Defs, Types, DeclSpells, CallSpells, MaxSecrets, SecReqs, MaxOutputs,
-          ValueKinds, Extras, Inherit, Skips
+          ValueKinds, Locs, UsesForms, Extras, Inherit, Skips
 VARIABLES l, mism, drift, d, call, tc
 
 C == INSTANCE Calls
@@ -17,7 +17,7 @@ Trace == ndJsonDeserialize("trace.ndjson")
 
 ObsSet(r) == {C!D(r.obs[i].class, r.obs[i].name) : i \in DOMAIN r.obs}
 \* the property itself, judged on the real output by the declarative layer only
-PropOK(r) == ObsSet(r) = C!Expected(r.iface, r.call)
+PropOK(r) == ObsSet(r) \ C!Unspecified(r.iface, r.call) = C!Expected(r.iface, r.call)
 \* agreement with the operational layer, and no diagnostic reported twice; a difference here alone is model drift
 ModelOK(r) == /\ ObsSet(r) = C!OpOfIface(r.iface, r.call)
               /\ \A i, j \in DOMAIN r.obs : i # j => r.obs[i] # r.obs[j]
